@@ -302,6 +302,25 @@ class SSeq:
             raise Unsupported("copy of a list of records")
         return self
 
+    def to_sorted_list(self, ex, st):
+        """sorted(L) for a list of DISTINCT indices: a strictly increasing enumeration of the same members (a fresh list object)."""
+        if getattr(self, "plain", None) is not None or not self.distinct:
+            raise Unsupported("sorted() of a list that may hold repeated entries")
+        st.pc.extend(self.facts)
+        n = self.length_t
+        seq = fresh_const(ex.ctx, "sorted_" + self.name, SEQSORT)
+        pos = fresh_const(ex.ctx, "sortedpos_" + self.name, SEQSORT)
+        i, j, e = z3.Int("i!q"), z3.Int("j!q"), z3.Int("e!q")
+        st.pc.append(z3.ForAll([i], z3.Implies(z3.And(0 <= i, i < n), z3.And(z3.Select(self.mem, z3.Select(seq, i)), z3.Select(pos, z3.Select(seq, i)) == i))))
+        st.pc.append(z3.ForAll([e], z3.Implies(z3.Select(self.mem, e), z3.And(0 <= z3.Select(pos, e), z3.Select(pos, e) < n, z3.Select(seq, z3.Select(pos, e)) == e))))
+        st.pc.append(z3.ForAll([i, j], z3.Implies(z3.And(0 <= i, i < j, j < n), z3.Select(seq, i) < z3.Select(seq, j))))
+        q = SSeq(ex.ctx, self.name + "_sorted")
+        q.length_t = n
+        q.elems = seq
+        q.mem = self.mem
+        q.distinct = True
+        return q
+
 
 # ----------------------------------------------------------------------------
 # iteration sources
